@@ -107,10 +107,17 @@ func claimTruth(c *RangeClaim) (isTrue, more bool) {
 			return false, false
 		}
 	}
-	var want []KV
 	switch {
 	case c.NoProof:
-		want = sorted
+		if len(sorted) != len(c.Keys) {
+			return false, false
+		}
+		for i := range sorted {
+			if sorted[i].K != c.Keys[i] || sorted[i].V != c.Values[i] {
+				return false, false
+			}
+		}
+		return true, false
 	case len(c.Keys) == 0:
 		for _, kv := range sorted {
 			if kv.K >= c.First {
@@ -120,24 +127,30 @@ func claimTruth(c *RangeClaim) (isTrue, more bool) {
 		return true, false
 	default:
 		last := c.Keys[len(c.Keys)-1]
+		// every listed entry is an entry of the trie (entries left of first are not forbidden,
+		// they just have to be genuine), strictly increasing
+		inTrie := map[string]string{}
 		for _, kv := range sorted {
-			if kv.K >= c.First && kv.K <= last {
-				want = append(want, kv)
+			inTrie[kv.K] = kv.V
+		}
+		listed := map[string]bool{}
+		for i, k := range c.Keys {
+			if inTrie[k] != c.Values[i] || (i > 0 && c.Keys[i-1] >= k) {
+				return false, false
+			}
+			listed[k] = true
+		}
+		// and nothing between first and last is left out
+		for _, kv := range sorted {
+			if kv.K >= c.First && kv.K <= last && !listed[kv.K] {
+				return false, false
 			}
 			if kv.K > last {
 				more = true
 			}
 		}
+		return true, more
 	}
-	if len(want) != len(c.Keys) {
-		return false, false
-	}
-	for i := range want {
-		if want[i].K != c.Keys[i] || want[i].V != c.Values[i] {
-			return false, false
-		}
-	}
-	return true, more
 }
 
 func bitsAdd(bits string, d int64) (string, bool) {
@@ -153,7 +166,23 @@ func (c *ctx) rangeSection(r *lib.RNG, out chan<- batch) {
 	res := c.res
 	rcfg := c.probeRangeCfg()
 	res.SetExtra("trie2_range_verifier_variant", map[string]any{"retrieve_checks_node_hash": rcfg[0] == '1',
-		"value_node_ends_walk_early": rcfg[1] == '1', "hash_child_at_consumed_key_is_the_leaf": rcfg[2] == '1'})
+		"value_node_ends_walk_early": rcfg[1] == '1', "hash_child_at_consumed_key_is_the_leaf": rcfg[2] == '1',
+		"zero_root_is_the_empty_trie": rcfg[3] == '1', "boundary_leaf_under_binary_node_is_unset": rcfg[4] == '1'})
+	// the empty trie: root 0, GetRangeProof returns the empty node set; "no entry at or right of first" is true
+	for _, impl := range []string{"legacy", "trie2"} {
+		spec := TrieSpec{Impl: impl, Hash: "ped", Height: 251}
+		if bt, err := buildTrie(&spec); err == nil {
+			first := randBits(r, 251)
+			if p, err := bt.rangeProof(first, first); err == nil {
+				var pending batch
+				c.evalRange(&RangeClaim{Impl: impl, Kind: "honest-empty-range-of-empty-trie", Trie: nil, Root: fhex(&bt.root), First: first, Proof: append(Proof{}, p...)},
+					&pending, rcfg, "empty-"+impl)
+				if len(pending.checks) > 0 {
+					out <- pending
+				}
+			}
+		}
+	}
 	nTries := c.f.Scale(60, 600)
 	for ti := 0; ti < nTries; ti++ {
 		rr := r.Fork(uint64(ti))
@@ -356,7 +385,42 @@ func (c *ctx) evalRange(cl *RangeClaim, pending *batch, rcfg, id string) {
 		pending.checks = append(pending.checks, check{line: line, impl: implAns, sig: "trie2:range-model:" + cl.Kind, replay: func() any { return cc }})
 		res.Hit("range-model:" + cl.Kind)
 	}
+	if impl == "trie2" && !cl.NoProof && len(cl.Keys) >= 1 && len(cl.Keys) == len(cl.Values) && !(len(cl.Keys) == 1 && cl.First == cl.Keys[0]) {
+		// the general case (two edge paths) against the Lean model; the as-is code misbehaves on node
+		// sets with a shared node object (known finding), the model has no aliasing: skipped there
+		if rcfg[0] == '0' && proofSharesNode(cl.Proof) {
+			res.Hit("range-model:multi-skipped-shared-node")
+		} else {
+			var sb strings.Builder
+			sb.WriteString("r2 " + rcfg + " multi " + cl.Root + " " + cl.First)
+			for i := range cl.Keys {
+				sb.WriteString(" " + cl.Keys[i] + "=" + cl.Values[i])
+			}
+			sb.WriteString(" |" + cl.Proof.toks(hashFnOf("ped")) + " |")
+			_, facts := refRootFacts(hashFnOf("ped"), cl.Trie, true)
+			for _, f := range facts {
+				sb.WriteString(" " + f)
+			}
+			implAns := class
+			if class == "ok" {
+				implAns = "ok 0"
+				if more {
+					implAns = "ok 1"
+				}
+			}
+			cc := cl
+			pending.checks = append(pending.checks, check{line: sb.String(), impl: implAns, sig: "trie2:range-model:multi:" + cl.Kind, replay: func() any { return cc }})
+			res.Hit("range-model:multi:" + cl.Kind)
+		}
+	}
 	honest := strings.HasPrefix(cl.Kind, "honest")
+	// attribution to the cause: when two places of the trie hold identical subtrees the node set has
+	// ONE node object for both; trie2 links that object under both parents and then mutates it
+	// (unsetInternal), which shows as a panic, a rejected honest proof or an accepted gap
+	sigKind := cl.Kind
+	if impl == "trie2" && proofSharesNode(cl.Proof) {
+		sigKind = "identical-subtrees-share-one-node-object"
+	}
 	switch {
 	case class == "panic" || class == "hang":
 		// one signature per panic site, whatever the claim was (honest or altered)
@@ -368,18 +432,41 @@ func (c *ctx) evalRange(cl *RangeClaim, pending *batch, rcfg, id string) {
 			site = "hang"
 		}
 		res.Hit("range:" + impl + ":panic-on-" + cl.Kind)
+		if sigKind != cl.Kind {
+			site = sigKind
+		}
 		res.Violate(lib.Violation{Sig: impl + ":range:panic:" + site,
 			What: fmt.Sprintf("%s.VerifyRangeProof %ss (claim: %s): %s", impl, class, cl.Kind, msg), Replay: cl})
 	case honest && class != "ok":
-		res.Violate(lib.Violation{Sig: impl + ":range:" + cl.Kind + ":rejected",
+		res.Violate(lib.Violation{Sig: impl + ":range:" + sigKind + ":rejected",
 			What: fmt.Sprintf("%s.VerifyRangeProof rejects the range proof returned by GetRangeProof for a true claim (%s): %s", impl, cl.Kind, msg), Replay: cl})
 	case class == "ok" && !isTrue:
-		res.Violate(lib.Violation{Sig: impl + ":range:" + cl.Kind + ":false-claim-accepted",
+		res.Violate(lib.Violation{Sig: impl + ":range:" + sigKind + ":false-claim-accepted",
 			What: fmt.Sprintf("%s.VerifyRangeProof accepts a range claim the trie does not satisfy (%s)", impl, cl.Kind), Replay: cl})
 	case class == "ok" && more != moreTruth:
-		res.Violate(lib.Violation{Sig: impl + ":range:" + cl.Kind + ":has-more-wrong",
+		res.Violate(lib.Violation{Sig: impl + ":range:" + sigKind + ":has-more-wrong",
 			What: fmt.Sprintf("%s.VerifyRangeProof reports more=%v, the trie has more=%v (%s)", impl, more, moreTruth, cl.Kind), Replay: cl})
 	}
+}
+
+// proofSharesNode: some node of the set is referenced from two places (identical subtrees).
+func proofSharesNode(p Proof) bool {
+	keys := map[string]bool{}
+	for i := range p {
+		keys[p[i].Key] = true
+	}
+	refs := map[string]int{}
+	for i := range p {
+		for _, ch := range children(&p[i]) {
+			if ch.tag() == 'h' && keys[ch.F] {
+				refs[ch.F]++
+				if refs[ch.F] > 1 {
+					return true
+				}
+			}
+		}
+	}
+	return false
 }
 
 // leafIsNodeHashClaim builds a trie2 trie in which one key holds x = hash of the node
@@ -443,7 +530,7 @@ func (c *ctx) probeRangeCfg() string {
 	bt, err := buildTrie(&spec)
 	if err != nil {
 		c.res.Note("range probe: %v", err)
-		return "010"
+		return "01000"
 	}
 	rootHex := fhex(&bt.root)
 	key := spec.KVs[0].K
@@ -472,5 +559,10 @@ func (c *ctx) probeRangeCfg() string {
 			}
 		}
 	}
-	return b(!forged) + b(early) + b(!leafWalk)
+	// (4) the empty trie: root 0, empty node set, "nothing at or right of first"
+	zero := accepted(&RangeClaim{Impl: "trie2", Root: "0", First: key, Proof: Proof{}})
+	// (5) first = the left one of two sibling leaves, left out of the keys
+	gap := accepted(&RangeClaim{Impl: "trie2", Root: rootHex, First: spec.KVs[0].K, Keys: []string{spec.KVs[1].K}, Values: []string{spec.KVs[1].V},
+		Proof: func() Proof { p, _ := bt.rangeProof(spec.KVs[0].K, spec.KVs[1].K); return p }()})
+	return b(!forged) + b(early) + b(!leafWalk) + b(zero) + b(!gap)
 }
